@@ -14,3 +14,16 @@
 //@|        r.1.tcp_task().client_loop.rx.0.chan == r.0.tx.chan,
 //@|        listener matches Some(l) ==> r.1.tcp_task().states() == l.log(), listener is None ==> r.1.tcp_task().states().len() == 0,
 //@closure 0| || -> (l: Box<dyn crate::client::listener::Listener<ClientState>>) ensures l.log().len() == 0
+    use crate::tcp::tls::client::create_tls_channel;
+    use crate::shims::net::TlsClientConfig;
+    use crate::tcp::client::TcpTaskConnectionHandler;
+// [C09] ... and the TLS constructor hands the TLS configuration as well
+//@fn rodbus/src/client/mod.rs | create_tls_client_task_with_options | tags=C09,C12,C13,C20
+//@|    ensures r.1.is_tcp_task(), r.1.tcp_task().wf(),
+//@|        r.1.tcp_task().connection_handler matches TcpTaskConnectionHandler::Tls(c) && c.id == tls_config.id,
+//@|        r.1.tcp_task().client_loop.decode == client_options.decode_level, !r.1.tcp_task().client_loop.enabled,
+//@|        client_options.max_timeouts is None ==> r.1.tcp_task().client_loop.timeout_counter.limit() is None,
+//@|        client_options.max_timeouts is Some ==> r.1.tcp_task().client_loop.timeout_counter.limit() == Some(crate::nz_value(client_options.max_timeouts->Some_0)),
+//@|        r.1.tcp_task().client_loop.rx.0.chan == r.0.tx.chan,
+//@|        listener matches Some(l) ==> r.1.tcp_task().states() == l.log(), listener is None ==> r.1.tcp_task().states().len() == 0,
+//@closure 0| || -> (l: Box<dyn crate::client::listener::Listener<ClientState>>) ensures l.log().len() == 0
